@@ -1,3 +1,4 @@
+import FractopoModel.Generated.IntersectsLoop
 import FractopoModel.Model.Relationships
 import FractopoModel.Generated.DetermineIntersect
 import FractopoModel.Generated.RelationshipLoop
@@ -166,5 +167,48 @@ example :
     Gen.relationship_rows (fun s => s != "B") (fun _ _ => [(("X", ("A", "C")), 2), (("Y", ("C", "A")), 1)]) (fun _ _ => 0) ["A", "B", "C"] "t"
       = .ok [("t", ("A", "C"), 2, 0, 1, 0)] := by
   simp [Gen.relationship_rows, pyCombinations2, Gen.relationship_rows_loop1, Gen.relationship_rows_loop2]
+
+/-! ### the node loop of `determine_intersects` (regenerated) -/
+
+section IntersectsLoop
+variable {N : Type}
+
+/-- the row recorded for one node -/
+def rowOf (touches1 touches2 : N → Bool) (intersect_ : N → String → Bool → Bool → Option (String × String)) (names : String × String) (x : N × String) :
+    N × String × (String × String) × Bool :=
+  match intersect_ x.1 x.2 (touches1 x.1) (touches2 x.1) with
+  | some sets => (x.1, x.2, sets, false)
+  | none => (x.1, x.2, names, true)
+
+theorem intersects_loop_eq (touches1 touches2 : N → Bool) (intersect_ : N → String → Bool → Bool → Option (String × String)) (names : String × String)
+    (ns : List N) (cs : List String) (l : List (N × String)) (acc : List (N × String × (String × String) × Bool)) :
+    Gen.determine_intersects_rows_loop1 touches1 touches2 intersect_ names ns cs l acc =
+      bif l.any (fun x => !touches1 x.1 && !touches2 x.1) then .ret (.error "ValueError")
+      else .done (acc ++ l.map (rowOf touches1 touches2 intersect_ names)) := by
+  induction l generalizing acc with
+  | nil => simp [Gen.determine_intersects_rows_loop1]
+  | cons x rest ih =>
+    obtain ⟨n, c⟩ := x
+    simp only [Gen.determine_intersects_rows_loop1, List.any_cons, List.map_cons]
+    cases h : (!touches1 n && !touches2 n)
+    · simp only [Bool.false_eq_true, if_false, Bool.false_or, ih]
+      unfold rowOf
+      cases intersect_ n c (touches1 n) (touches2 n) <;> cases rest.any (fun x => !touches1 x.1 && !touches2 x.1) <;> simp
+    · simp
+
+/-- **One row per node, in order.** The regenerated node loop of `determine_intersects` raises ValueError iff some node touches the
+traces of NEITHER set; otherwise it records every X/Y node exactly once, in order: with the ordered pair `determine_intersect`
+(`C12_generated_determine_intersect`) decides and `error = False`, or -- when that function raises -- with the unordered pair of set
+names and `error = True`. No node is dropped, none counted twice. -/
+theorem C12_generated_intersects_rows (touches1 touches2 : N → Bool) (intersect_ : N → String → Bool → Bool → Option (String × String))
+    (names : String × String) (ns : List N) (cs : List String) :
+    Gen.determine_intersects_rows touches1 touches2 intersect_ names ns cs =
+      (if (List.zip ns cs).any (fun x => !touches1 x.1 && !touches2 x.1) then .error "ValueError"
+       else .ok ((List.zip ns cs).map (rowOf touches1 touches2 intersect_ names))) := by
+  unfold Gen.determine_intersects_rows
+  simp only [intersects_loop_eq, List.nil_append]
+  cases (List.zip ns cs).any (fun x => !touches1 x.1 && !touches2 x.1) <;> rfl
+
+end IntersectsLoop
 
 end C12
